@@ -381,14 +381,13 @@ Theorem history_first_commit_succeeds' : forall w e msg c,
   w_refs w = [] -> idx_of w <> [] ->
   user_set (x_l c) (x_g c) = true ->
   CommitFacts.sign_ok (user_name (x_l c) (x_g c)) (user_email (x_l c) (x_g c)) (e_time e) (e_off e) ->
-  CommitFacts.msg_ok msg ->
   exists root subs,
     write_tree_top (idx_of w) = Some (root, subs) /\
     step (ACmd e (CCommit msg)) w =
     (CommitCmdFacts.after_commit e c msg w root subs, OOk [],
      CommitCmdFacts.do_commit_trace e c msg w root subs).
 Proof.
-  intros w e msg c Hr Hx Hrf Hne Hu Hso Hm.
+  intros w e msg c Hr Hx Hrf Hne Hu Hso.
   apply GateFacts.history_first_commit_succeeds; try assumption.
   apply (reachable_head_valid w Hr).
   apply (GateFacts.reachable_inited w Hr). right. apply GateFacts.idx_nonempty_index. exact Hne.
@@ -566,7 +565,6 @@ Proof.
   - vm_compute. discriminate.
   - vm_compute. reflexivity.
   - exact CommitCmdFacts.ex_sign_ok.
-  - exact CommitCmdFacts.ex_msg_ok.
 Qed.
 
 (* ------------------------------------------------------------------ *)
